@@ -6,6 +6,8 @@ import Pymc.Proofs.HashCallManyExamples
 import Pymc.Proofs.HashCallSetExamples
 import Pymc.Proofs.HashPooledCallExamples
 import Pymc.Proofs.HashInnerPlain
+import Pymc.Proofs.HashPooledCallManyExamples
+import Pymc.Proofs.HashInnerManyPlain
 import Pymc.Proofs.HashBroadcastExamples
 /-!
 # C01 — no reply is ever read by the wrong call
@@ -54,7 +56,12 @@ The argument is the invariant *at a call boundary an open socket has nothing unr
    bracket of section 9: every contact with a server is one `PooledClient` call, i.e. a real `Client.call` on an inner
    client of the pool of the `PooledClient` registered for that server.  The invariant becomes *every idle inner client,
    of every pool registered in `self.clients`, with an open socket has nothing unread in its pipe*
-   (`C01_hashpooled_sequence_clean`, `C01_hashpooled_own_bytes_only`, and the `…_faults` variants).
+   (`C01_hashpooled_sequence_clean`, `C01_hashpooled_own_bytes_only`, and the `…_faults` variants);
+13. and for `HashClient(use_pooling=True)` with `get_many` / `gets_many`, `set_many` and `delete_many`: model
+   `Pymc/Model/HashPooledCallMany.lean` — the multi-key code of section 11 (`Pymc/Model/HashInnerMany.lean`: the same code
+   with the registered object as a parameter) around the pool bracket: one public call checks inner clients out of
+   several pools one after the other, every batch is a real `Client.call` on the checked-out inner client
+   (`C01_hashpooled_many_sequence_clean`, `C01_hashpooled_many_own_bytes_only`, and the `…_faults` variants).
 
 No bound on lengths, number of keys or chunking anywhere.
 -/
@@ -1565,5 +1572,244 @@ example :
   rw [runB_length]; rfl
 
 end hashbroadcast
+
+/-! ## 13. `HashClient(use_pooling=True)`: `get_many` / `gets_many`, `set_many`, `delete_many` mixed with the single-key operations
+
+Model: `Pymc/Model/HashPooledCallMany.lean` (= `Pymc/Model/HashInnerMany.lean`, the multi-key code of `HashClient` —
+that of section 11 — with the object registered in `self.clients` as a parameter, instantiated with the `PooledClient`
+of section 9 exactly as section 12 instantiates the single-key code).  A public call (`MPCall`) is an operation of
+section 11 (`HashCall.MOp`: a single-key operation, `get_many` / `gets_many` with one script per server, `set_many` with one
+script per server and batch, `delete_many` with one script per key) with the time of the call and the time at which the
+pools release their inner clients; `runMP ccfg pcfg fcfg route (init pcfg servers t0) 0 calls` runs a history on a fresh
+`HashClient(use_pooling=True)`.  Every batch that reaches a server is one `PooledCall.callP` on the pool of the
+`PooledClient` registered for that server when the second loop gets there — check-out, `Client.call … (.getMany batch)` /
+`(.setMany batch …)` / `(.delete key …)` on the checked-out inner client, release or destroy — so one public call may use
+several pools one after the other (and `delete_many` the same pool several times); `stepsOf ob` lists the inner
+`Client.call`s of a public call in order, all tagged with its number.  The framing hypothesis is that of section 11
+(`MOp.WellFramed` / `MOp.FaultFramed`): it is about the scripts, not about which keys the failover code sends where. -/
+section hashpooledmany
+open HashPooledCall
+
+variable {RK : Type}
+
+/-- C01 (`HashClient(use_pooling=True)` with multi-key calls, the step is the inner call): every inner step observed for
+call `i` is `Client.call` (with `ignore_exc=False`) for one of the invocations the `i`-th operation of the history can
+make (`HashPooledCall.InvocationOf`: the operation itself; `get_many batch` / `gets_many batch` with the script of a server;
+`set_many batch expire noreply flags` with the script of a server for that batch; the `delete` of one of the keys of a
+`delete_many` with its script) on some inner client (socket state `so`, pipe `left`), that call's `recv()` results tagged
+`i`; and the `PooledClient` method returned or raised what it returned or raised. -/
+theorem C01_hashpooled_many_step_is_client_call (ccfg : Cfg) (pcfg : Pooled.Cfg) (fcfg : Failover.Cfg)
+    (route : List Nat → RK → Option Nat) (servers : List Nat) (t0 : Nat) (calls : List (MPCall RK)) :
+    ∀ (i : Nat) (ob : MPObs pcfg), (runMP ccfg pcfg fcfg route (init pcfg servers t0) 0 calls).2[i]? = some ob →
+      ∃ mc, calls[i]? = some mc ∧
+        ∀ po ∈ pobsOf ob, ∀ st, po.step = some st →
+          ∃ so left call sc, InvocationOf mc.op call sc ∧
+            st.idx = i ∧ st.avail = available so left (sc.evs.map fun e => (i, e)) ∧
+            st.out = Client.call ccfg false so call { sc with evs := st.avail.map (·.2) } ∧
+            po.res = some st.out.res := by
+  intro i ob hi
+  obtain ⟨mc, hmc, h⟩ := runMP_steps ccfg fcfg route (init pcfg servers t0) 0 calls i ob hi
+  refine ⟨mc, hmc, fun po hpo st hst => ?_⟩
+  obtain ⟨so, left, call, sc, hinvoc, hs, hres⟩ := h po hpo st hst
+  rw [Nat.zero_add] at hs
+  subst hs
+  exact ⟨so, left, call, sc, hinvoc, rfl, rfl, rfl, hres⟩
+
+/-- C01 (`HashClient(use_pooling=True)` with multi-key calls, sequences): run any history of single-key calls,
+`get_many` / `gets_many`, `set_many` and `delete_many` on a fresh pooling `HashClient`.  If what arrives on every connection
+during each call is well-framed, then after every call (`calls.take n` = the first `n` calls) — returned or raised —, in
+the pool of every `PooledClient` registered in `self.clients`, no inner client is checked out and every idle inner client
+with an open socket has no byte unread in its pipe. -/
+theorem C01_hashpooled_many_sequence_clean (ccfg : Cfg) (pcfg : Pooled.Cfg) (fcfg : Failover.Cfg)
+    (route : List Nat → RK → Option Nat) (servers : List Nat) (t0 : Nat) (calls : List (MPCall RK))
+    (hwf : ∀ mc ∈ calls, mc.op.WellFramed ccfg) (n : Nat) :
+    ∀ p ∈ pools (runMP ccfg pcfg fcfg route (init pcfg servers t0) 0 (calls.take n)).1,
+      p.2.2.used = [] ∧
+      ∀ cl ∈ p.2.2.free, cl.sockOpen = true → joinData (cl.pipe.map (·.2)) = [] ∧ clean (cl.pipe.map (·.2)) := by
+  intro p hp
+  obtain ⟨x, hx, hpx⟩ := mem_pools hp
+  rw [hpx]
+  refine ⟨PooledCall.used_nil_of_proj ?_, fun cl hcl hopen => ?_⟩
+  · exact ((runMP_poolsOK ccfg fcfg route (init pcfg servers t0) 0 (calls.take n) (poolsOK_init servers t0)).1 x hx).2.used_nil
+  · have h := (runMP_clean ccfg fcfg route (init pcfg servers t0) 0 (calls.take n) (pipesClean_init servers t0)
+      (fun mc h => hwf mc (List.mem_of_mem_take h))).1 x hx cl hcl hopen
+    have hd : Drained (cl.pipe.map (·.2)) := by
+      rw [drained_iff_all_eintr]
+      intro e he
+      obtain ⟨te, hte, rfl⟩ := List.mem_map.mp he
+      exact h te hte
+    exact hd
+
+/-- `HashPooledCallExamples.manyCalls` (`HashCallExamples.manyCalls` with pooling, `max_pool_size=1`, `ignore_exc=True`)
+satisfies the hypothesis; its run shows a `get_many` split over the pools of two servers, a failing batch whose inner
+client is destroyed by its pool while the exception is swallowed and the other batch is still sent, eviction with the
+final probe inside a `get_many`, both keys rerouted into one batch, and the revived server served through a fresh
+`PooledClient` with an empty pool (per batch: server, `PooledClient`, inner client, connection, served; per pool: server,
+`PooledClient`, idle clients as (id, connection, open, events left), closed connections, checked out) -/
+example :
+    (∀ mc ∈ HashPooledCallExamples.manyCalls, mc.op.WellFramed {}) ∧
+    HashPooledCallExamples.manySummaryP (runMP {} HashPooledCallExamples.pool1 HashCallExamples.cfgIgnore Failover.prefRoute
+        (init HashPooledCallExamples.pool1 [0, 1] 0) 0 HashPooledCallExamples.manyCalls) =
+      [(.value (.dict [(.bytes [107], [120])]), [⟨0, some 0, some 0, some 0, true⟩, ⟨1, some 1, some 0, some 0, true⟩]),
+       (.value (.dict []), [⟨0, some 0, some 0, some 0, false⟩, ⟨1, some 1, some 0, some 0, true⟩]),
+       (.default, [⟨0, some 0, some 1, none, false⟩]),
+       (.value (.dict []), [⟨0, some 0, some 2, none, false⟩, ⟨1, some 1, some 0, some 0, true⟩]),
+       (.value (.dict []), [⟨1, some 1, some 0, some 0, true⟩]),
+       (.value (.dict [(.bytes [107], [120])]), [⟨0, some 2, some 0, some 0, true⟩, ⟨1, some 1, some 0, some 0, true⟩])] ∧
+    HashPooledCallExamples.manyStateP (runMP {} HashPooledCallExamples.pool1 HashCallExamples.cfgIgnore Failover.prefRoute
+        (init HashPooledCallExamples.pool1 [0, 1] 0) 0 HashPooledCallExamples.manyCalls) =
+      ({ nodes := [1, 0], failed := [], dead := [], lastDeadCheck := 12 },
+       [⟨0, 2, [(0, some 0, true, 0)], [], 0⟩, ⟨1, 1, [(0, some 0, true, 0)], [], 0⟩]) :=
+  ⟨HashPooledCallExamples.manyCalls_wf, HashPooledCallExamples.demo_many_pooled.1, HashPooledCallExamples.demo_many_pooled.2.2⟩
+
+/-- C01 (`HashClient(use_pooling=True)` with multi-key calls, own bytes only): under the same hypothesis, for every inner
+`Client.call` made during public call number `i` — one per contacted server for `get_many` / `set_many`, one per key for
+`delete_many` — everything it can see on the socket of the inner client it runs on, a fortiori everything it consumes,
+carries tag `i`, except possibly interrupted `recv()` attempts (`eintr`), which carry no bytes. -/
+theorem C01_hashpooled_many_own_bytes_only (ccfg : Cfg) (pcfg : Pooled.Cfg) (fcfg : Failover.Cfg)
+    (route : List Nat → RK → Option Nat) (servers : List Nat) (t0 : Nat) (calls : List (MPCall RK))
+    (hwf : ∀ mc ∈ calls, mc.op.WellFramed ccfg) :
+    ∀ (i : Nat) (ob : MPObs pcfg), (runMP ccfg pcfg fcfg route (init pcfg servers t0) 0 calls).2[i]? = some ob →
+      ∀ st ∈ stepsOf ob,
+        st.idx = i ∧
+        st.consumed ++ st.leftover = st.avail ∧
+        st.leftover.map (·.2) = st.out.unread ∧
+        (∀ te ∈ st.avail, te.1 = i ∨ te.2 = .eintr) ∧
+        (∀ te ∈ st.consumed, te.1 = i ∨ te.2 = .eintr) := by
+  intro i ob hi st hst
+  obtain ⟨hidx, h⟩ := (runMP_clean ccfg fcfg route (init pcfg servers t0) 0 calls (pipesClean_init servers t0) hwf).2 i ob hi st hst
+  rw [Nat.zero_add] at hidx
+  have hown : ∀ te ∈ st.avail, te.1 = i ∨ te.2 = .eintr := fun te hte => hidx ▸ h.own te hte
+  refine ⟨hidx, h.split, h.left, hown, fun te hte => hown te ?_⟩
+  rw [← h.split]; exact List.mem_append_left _ hte
+
+/-- `HashPooledCallExamples.setCalls` (`HashCallExamples.setCalls` with pooling, `ignore_exc=False`) satisfies the
+hypothesis; its run shows a `set_many` split over two pools, the failing batch of server 0 ending the call before the pool
+of server 1 is asked, a batch skipped inside the retry window (no pool is asked: `pc = none`), a `delete_many` ended by
+its first `delete`, eviction inside a `set_many`, both items in one batch (two reply lines consumed by one inner call),
+and a `delete_many` over two pools after the revival; every inner call consumes only `recv()` results of its own public
+call (tags per public call, per inner call) -/
+example :
+    (∀ mc ∈ HashPooledCallExamples.setCalls, mc.op.WellFramed {}) ∧
+    HashPooledCallExamples.manySummaryP (runMP {} HashPooledCallExamples.pool1 HashCallExamples.cfgStrict Failover.prefRoute
+        (init HashPooledCallExamples.pool1 [0, 1] 0) 0 HashPooledCallExamples.setCalls) =
+      [(.value (.keys []), [⟨0, some 0, some 0, some 0, true⟩, ⟨1, some 1, some 0, some 0, true⟩]),
+       (.raised 0 (.inner (.sock 32)), [⟨0, some 0, some 0, some 0, false⟩]),
+       (.value (.keys [.bytes [107]]), [⟨0, none, none, none, false⟩, ⟨1, some 1, some 0, some 0, true⟩]),
+       (.raised 0 (.inner (.sock 61)), [⟨0, some 0, some 1, none, false⟩]),
+       (.raised 0 (.inner (.sock 61)), [⟨0, some 0, some 2, none, false⟩]),
+       (.value (.keys []), [⟨1, some 1, some 0, some 0, true⟩]),
+       (.value (.bool true), [⟨0, some 2, some 0, some 0, true⟩, ⟨1, some 1, some 0, some 0, true⟩])] ∧
+    HashPooledCallExamples.manyTagsP (runMP {} HashPooledCallExamples.pool1 HashCallExamples.cfgStrict Failover.prefRoute
+        (init HashPooledCallExamples.pool1 [0, 1] 0) 0 HashPooledCallExamples.setCalls) =
+      [[[0], [0]], [[]], [[2]], [[]], [[]], [[5, 5]], [[6], [6]]] :=
+  ⟨HashPooledCallExamples.setCalls_wf, HashPooledCallExamples.demo_set_pooled.1, HashPooledCallExamples.demo_set_pooled.2.1⟩
+
+/-- C01 (`HashClient(use_pooling=True)` with multi-key calls, no foreign bytes): every `recv()` result that carries data
+and is consumed by an inner call of public call `i` carries tag `i`. -/
+theorem C01_hashpooled_many_no_foreign_bytes (ccfg : Cfg) (pcfg : Pooled.Cfg) (fcfg : Failover.Cfg)
+    (route : List Nat → RK → Option Nat) (servers : List Nat) (t0 : Nat) (calls : List (MPCall RK))
+    (hwf : ∀ mc ∈ calls, mc.op.WellFramed ccfg) :
+    ∀ (i : Nat) (ob : MPObs pcfg), (runMP ccfg pcfg fcfg route (init pcfg servers t0) 0 calls).2[i]? = some ob →
+      ∀ st ∈ stepsOf ob, ∀ te ∈ st.consumed, ∀ b, te.2 = .data b → te.1 = i := by
+  intro i ob hi st hst te hte b hb
+  rcases (C01_hashpooled_many_own_bytes_only ccfg pcfg fcfg route servers t0 calls hwf i ob hi st hst).2.2.2.2 te hte with h | h
+  · exact h
+  · rw [hb] at h; cases h
+
+/-- C01 (`HashClient(use_pooling=True)` with multi-key calls, sequences, broken connections): if what arrives on every
+connection during each call is fault-framed (`MOp.FaultFramed`: the owed reply, or a strict prefix of it cut at any byte
+by end-of-stream or an exception), then after every call no byte is readable, before a fault, from the pipe of any idle
+inner client with an open socket of any registered pool. -/
+theorem C01_hashpooled_many_sequence_clean_faults (ccfg : Cfg) (pcfg : Pooled.Cfg) (fcfg : Failover.Cfg)
+    (route : List Nat → RK → Option Nat) (servers : List Nat) (t0 : Nat) (calls : List (MPCall RK))
+    (hff : ∀ mc ∈ calls, mc.op.FaultFramed ccfg) (n : Nat) :
+    ∀ p ∈ pools (runMP ccfg pcfg fcfg route (init pcfg servers t0) 0 (calls.take n)).1,
+      ∀ cl ∈ p.2.2.free, cl.sockOpen = true → quiet (cl.pipe.map (·.2)) := by
+  intro p hp
+  obtain ⟨x, hx, hpx⟩ := mem_pools hp
+  rw [hpx]
+  exact (runMP_quiet ccfg fcfg route (init pcfg servers t0) 0 (calls.take n) (pipesQuiet_init servers t0)
+    (fun mc h => hff mc (List.mem_of_mem_take h))).1 x hx
+
+/-- C01 (`HashClient(use_pooling=True)` with multi-key calls, own bytes only, broken connections): everything an inner
+call of public call `i` can possibly receive — the pipe content of the inner client it runs on, up to the first fault —
+carries tag `i` or is an interrupted attempt without bytes; and an inner call whose inner client keeps its socket has
+consumed only such events. -/
+theorem C01_hashpooled_many_own_bytes_only_faults (ccfg : Cfg) (pcfg : Pooled.Cfg) (fcfg : Failover.Cfg)
+    (route : List Nat → RK → Option Nat) (servers : List Nat) (t0 : Nat) (calls : List (MPCall RK))
+    (hff : ∀ mc ∈ calls, mc.op.FaultFramed ccfg) :
+    ∀ (i : Nat) (ob : MPObs pcfg), (runMP ccfg pcfg fcfg route (init pcfg servers t0) 0 calls).2[i]? = some ob →
+      ∀ st ∈ stepsOf ob,
+        st.idx = i ∧
+        st.consumed ++ st.leftover = st.avail ∧
+        st.leftover.map (·.2) = st.out.unread ∧
+        (∀ te ∈ readable st.avail, te.1 = i ∨ te.2 = .eintr) ∧
+        (st.out.sockOpen = true → ∀ te ∈ st.consumed, te.1 = i ∨ te.2 = .eintr) := by
+  intro i ob hi st hst
+  obtain ⟨hidx, h⟩ := (runMP_quiet ccfg fcfg route (init pcfg servers t0) 0 calls (pipesQuiet_init servers t0) hff).2 i ob hi st hst
+  rw [Nat.zero_add] at hidx
+  have hown : ∀ te ∈ readable st.avail, te.1 = i ∨ te.2 = .eintr := fun te hte => hidx ▸ h.own te hte
+  exact ⟨hidx, h.split, h.left, hown, fun ho te hte => hown te (h.taken ho te hte)⟩
+
+/-- the fault hypothesis is satisfiable with pooled `set_many`: in `HashPooledCallExamples.cutCalls` the connection of
+server 1 breaks after `STOR` in the middle of a `set_many` reply — `MemcacheUnexpectedCloseError` escapes, the pool of
+server 1 destroys its inner client 0 and closes connection 0; the next `get_many` is served by inner client 1 over
+connection 1 and sees nothing of the cut reply -/
+example :
+    (∀ mc ∈ HashPooledCallExamples.cutCalls, mc.op.FaultFramed {}) ∧
+    HashPooledCallExamples.manySummaryP (runMP {} HashPooledCallExamples.pool1 HashCallExamples.cfgStrict Failover.prefRoute
+        (init HashPooledCallExamples.pool1 [0, 1] 0) 0 HashPooledCallExamples.cutCalls) =
+      [(.raised 1 (.inner .unexpectedClose), [⟨0, some 0, some 0, some 0, true⟩, ⟨1, some 1, some 0, some 0, false⟩]),
+       (.value (.dict [(.bytes [107], [120])]), [⟨0, some 0, some 0, some 0, true⟩, ⟨1, some 1, some 1, some 1, true⟩])] ∧
+    HashPooledCallExamples.manyTagsP (runMP {} HashPooledCallExamples.pool1 HashCallExamples.cfgStrict Failover.prefRoute
+        (init HashPooledCallExamples.pool1 [0, 1] 0) 0 HashPooledCallExamples.cutCalls) = [[[0], [0, 0]], [[1], [1]]] ∧
+    HashPooledCallExamples.manyStateP (runMP {} HashPooledCallExamples.pool1 HashCallExamples.cfgStrict Failover.prefRoute
+        (init HashPooledCallExamples.pool1 [0, 1] 0) 0 HashPooledCallExamples.cutCalls) =
+      ({ nodes := [0, 1], failed := [], dead := [], lastDeadCheck := 0 },
+       [⟨0, 0, [(0, some 0, true, 0)], [], 0⟩, ⟨1, 1, [(1, some 1, true, 0)], [0], 0⟩]) :=
+  ⟨HashPooledCallExamples.cutCalls_ff, HashPooledCallExamples.demo_cut_pooled.1, HashPooledCallExamples.demo_cut_pooled.2.1,
+    HashPooledCallExamples.demo_cut_pooled.2.2⟩
+
+/-- C01 (`HashClient(use_pooling=True)`, sections 12 and 13 agree): on a history of single-key calls the general run
+`runMP` is the run `runHP` of section 12 — same final state, same results, same pooled calls. -/
+theorem C01_hashpooled_many_extends_single (ccfg : Cfg) (pcfg : Pooled.Cfg) (fcfg : Failover.Cfg)
+    (route : List Nat → RK → Option Nat) (servers : List Nat) (t0 : Nat) (calls : List (HPCall RK)) :
+    (runMP ccfg pcfg fcfg route (init pcfg servers t0) 0 (calls.map HashInner.GCall.toGM)).1 =
+      (runHP ccfg pcfg fcfg route (init pcfg servers t0) 0 calls).1 ∧
+    (runMP ccfg pcfg fcfg route (init pcfg servers t0) 0 (calls.map HashInner.GCall.toGM)).2.map (·.res) =
+      (runHP ccfg pcfg fcfg route (init pcfg servers t0) 0 calls).2.map (·.res) ∧
+    (runMP ccfg pcfg fcfg route (init pcfg servers t0) 0 (calls.map HashInner.GCall.toGM)).2.map pobsOf =
+      (runHP ccfg pcfg fcfg route (init pcfg servers t0) 0 calls).2.map (fun ob => ob.inner.toList) :=
+  HashInner.runGM_cmds (I := pooled pcfg) ccfg fcfg route (init pcfg servers t0) 0 calls
+
+/-- C01 (the generic multi-key model instantiated with one `Client` per server is the model of section 11): the
+development behind this section is `Pymc/Model/HashInnerMany.lean` — `get_many` / `set_many` / `delete_many` of `HashClient` with
+"what a contact does" as a parameter — instantiated with the pool bracket (`HashPooledCall.pooled`).  Instantiated instead
+with a single `Client` per server (`HashInner.plain`, a contact being one `PooledCall.stepTagged`), it goes through the same
+states and makes the same observations as `HashCall.runM` on every general history (translations `HashInner.toG`,
+`HashInner.ofMCall`, `HashInner.mobsMap`): sections 11 and 13 are about the same multi-key code of `HashClient`, with
+`use_pooling=False` and `use_pooling=True`. -/
+theorem C01_hashpooled_many_model_is_generic (ccfg : Cfg) (fcfg : Failover.Cfg) (route : List Nat → RK → Option Nat)
+    (servers : List Nat) (t0 : Nat) (calls : List (HashCall.MCall RK)) :
+    HashInner.runGM ccfg fcfg route (HashInner.init HashInner.plain servers t0) 0 (calls.map HashInner.ofMCall) =
+      (HashInner.toG (HashCall.runM ccfg fcfg route (HashCall.init servers t0) 0 calls).1,
+       (HashCall.runM ccfg fcfg route (HashCall.init servers t0) 0 calls).2.map HashInner.mobsMap) := by
+  rw [← HashInner.init_plain]
+  exact HashInner.runGM_plain ccfg fcfg route (HashCall.init servers t0) 0 calls
+
+/-- non-vacuity: the pooled example histories of this section are the translations `HashInner.ofMCall` of the histories of
+section 11 (`HashCallExamples.manyCalls`, `HashCallExamples.setCalls`): the same calls run through the plain instance give the
+runs of section 11, through the pooled instance the runs shown above -/
+example :
+    HashPooledCallExamples.manyCalls = HashCallExamples.manyCalls.map HashInner.ofMCall ∧
+    HashPooledCallExamples.setCalls = HashCallExamples.setCalls.map HashInner.ofMCall ∧
+    (HashInner.runGM {} HashCallExamples.cfgStrict Failover.prefRoute (HashInner.init HashInner.plain [0, 1] 0) 0
+        (HashCallExamples.setCalls.map HashInner.ofMCall)).2.map (fun ob => ob.batches.map fun b => (b.server, b.obj, b.served)) =
+      [[(0, some 0, true), (1, some 1, true)], [(0, some 0, false)], [(0, none, false), (1, some 1, true)], [(0, some 0, false)],
+       [(0, some 0, false)], [(1, some 1, true)], [(0, some 2, true), (1, some 1, true)]] := by
+  refine ⟨rfl, rfl, by decide +kernel⟩
+
+end hashpooledmany
 
 end C01
